@@ -2,6 +2,7 @@
 from __future__ import annotations
 
 import ast
+import copy
 import dataclasses
 import re
 from typing import Any
@@ -9,23 +10,28 @@ from typing import Any
 from jinja2 import nodes
 
 from .. import tplq
-from ..astutil import Locals, call_name, calls_in, norm, region, short, stmt_of, where
-from ..cfg import CFG
+from ..astutil import Locals, call_name, calls_in, norm, region, short, where
 from ..core import PKG, Report
 from ..jinja_interp import expr_text
 from .c06 import MAY_RAISE, caught, handlers_around
+from .scenario import NONE, TooComplex, V, Walker, private_callees
 
-LEVEL = ("structural clauses: one status test per parsed response, a return is emitted in every status branch under every assignment "
-         "of its guards and `return None` only where the plain variants are not generated (truth tables), the unexpected-status tail "
+LEVEL = ("structural clauses: under every assignment of the conditions (those around a loop included, macros read in place) each parsed "
+         "response gets exactly one status test, the loop that emits it emits a return, and `return None` only where the plain variants are "
+         "not generated (truth tables); the unexpected-status tail "
          "(raise or None) is unconditional and the dedicated error's constructor applies no conversion to the body that can raise; the "
          "media-type classifier, decided as a truth table (the media type key and the result of get_content_type are abstract strings known "
          "through the atoms is-None / == / startswith / endswith over the classifier's string literals; every consistent assignment is "
          "followed along the path it selects), returns a source the property statement documents for the parsed type (a type in two "
          "documented classes, text/x+json, may go to either), each source pairs an httpx accessor with its type and every Response built "
-         "by empty_response carries the none source; every path to property_from_data passes the no-content and no-schema "
-         "tests (CFG dominance, guards evaluated); construct-or-cast; a failing type check of a union member aborts decoding only when "
+         "by empty_response carries the none source; in the scenarios no content / empty content / no schema every feasible path of the "
+         "response parser (scenario walker: abstract None-ness / truthiness of locals, helpers walked with their arguments) ends in "
+         "empty_response(...) without reaching property_from_data; construct-or-cast; a failing type check of a union member aborts decoding only when "
          "nothing can follow it (truth table, flag found by role); _build_response forwards status, content, headers, parsed; "
-         "blocking/asyncio parity; status parsing contained; reference resolution converges (shared with C20).")
+         "blocking/asyncio parity; in the scenario of an invalid status key every path ends the iteration with a diagnostic recorded and "
+         "no response added; reference resolution converges (shared with C20); the source and the schema of a response come from one media "
+         "type (inductive invariant of the selecting loop, provenance tags); the builder renders each operation's module from that "
+         "operation (shared with C16); the async httpx client is constructed with the arguments of the blocking one.")
 
 
 # ---- helpers -----------------------------------------------------------------------------------------------------------------
@@ -41,37 +47,6 @@ def _k3(e: ast.expr, known: dict[str, bool]) -> bool | None:
         v = _k3(e.operand, known)
         return None if v is None else not v
     return known.get(norm(e))
-
-
-def _absent(names: set[str], is_none: bool) -> dict[str, bool]:
-    """what the tests on a falsy value evaluate to: the value is None (is_none) or an empty container"""
-    out: dict[str, bool] = {}
-    for x in names:
-        out[x] = False
-        out[f"{x} is None"] = is_none
-        out[f"{x} is not None"] = not is_none
-    return out
-
-
-def _calls_empty_response(stmts: list[ast.stmt]) -> bool:
-    return any(isinstance(r, ast.Return) and any(call_name(c).rsplit(".", 1)[-1] == "empty_response" for c in calls_in(r)) for r in stmts)
-
-
-def _empty_guard(fn: ast.AST, cfg: CFG, site: ast.stmt, scenarios: list[dict[str, bool]]) -> ast.If | None:
-    """an `if` that every path to `site` passes and whose test, in each scenario, decides for the branch returning empty_response(...)
-    (whichever branch that is, whatever else the test mentions)"""
-    for i in ast.walk(fn):
-        if not isinstance(i, ast.If):
-            continue
-        ok = True
-        for known in scenarios:
-            v = _k3(i.test, known)
-            if v is None or not _calls_empty_response(i.body if v else i.orelse):
-                ok = False
-                break
-        if ok and i is not site and cfg.is_dominated_by(site, lambda n, i=i: n is i):
-            return i
-    return None
 
 
 def _tpl_stmts(body: list[nodes.Node], types: tuple, guards: tuple = (), gnodes: tuple = (), loops: tuple = ()):
@@ -97,12 +72,131 @@ def _tpl_stmts(body: list[nodes.Node], types: tuple, guards: tuple = (), gnodes:
             yield from _tpl_stmts(getattr(n, "body", []), types, guards, gnodes, loops)
 
 
+def _subst(n: nodes.Node, binding: "dict[str, nodes.Node]") -> None:
+    """replace, in place, every read of a macro parameter by (a copy of) the argument expression"""
+    for fld, val in n.iter_fields():
+        items = val if isinstance(val, list) else [val]
+        for i, x in enumerate(items):
+            if not isinstance(x, nodes.Node):
+                continue
+            if isinstance(x, nodes.Name) and x.ctx == "load" and x.name in binding:
+                new = copy.deepcopy(binding[x.name])
+                if isinstance(val, list):
+                    val[i] = new
+                else:
+                    setattr(n, fld, new)
+            else:
+                _subst(x, binding)
+
+
+def _inline_macros(body: "list[nodes.Node]", resolve: Any, depth: int = 2) -> "list[nodes.Node]":
+    """The template body with every `{{ macro(args) }}` (filters such as `| indent(n)` aside) of a macro that `resolve` finds - defined in
+    the template or imported by name from another one - replaced by the macro's body, parameters substituted by the argument expressions:
+    moving a piece of a template into a macro and calling it in the same place renders the same text, so rules about what is emitted
+    under which conditions read the expanded template.  A call that cannot be bound statically (*args, unknown parameter) stays."""
+    out: list[nodes.Node] = []
+    for n in body:
+        if isinstance(n, nodes.Output) and depth > 0:
+            cur: list[nodes.Node] = []
+            for c in n.nodes:
+                call = c
+                while isinstance(call, nodes.Filter) and call.node is not None:
+                    call = call.node
+                m = resolve(call.node.name) if isinstance(call, nodes.Call) and isinstance(call.node, nodes.Name) else None
+                binding: "dict[str, nodes.Node] | None" = None
+                if m is not None and not call.dyn_args and not call.dyn_kwargs:
+                    params = [a.name for a in m.args]
+                    binding = dict(zip(params[len(params) - len(m.defaults):], m.defaults)) if m.defaults else {}
+                    binding.update(zip(params, call.args))
+                    binding.update({k.key: k.value for k in call.kwargs})
+                    if len(call.args) > len(params) or set(binding) != set(params):
+                        binding = None
+                if m is None or binding is None:
+                    cur.append(c)
+                    continue
+                if cur:
+                    out.append(nodes.Output(cur, lineno=n.lineno))
+                    cur = []
+                inlined = copy.deepcopy(m.body)
+                for x in inlined:
+                    _subst(x, binding)
+                out += _inline_macros(inlined, resolve, depth - 1)
+            if cur:
+                out.append(nodes.Output(cur, lineno=n.lineno))
+        elif isinstance(n, (nodes.If, nodes.For, nodes.With, nodes.Scope, nodes.FilterBlock, nodes.AssignBlock)) and depth > 0:
+            n2 = copy.copy(n)
+            for fld in ("body", "else_"):
+                if isinstance(getattr(n, fld, None), list):
+                    setattr(n2, fld, _inline_macros(getattr(n, fld), resolve, depth))
+            if isinstance(n, nodes.If):
+                n2.elif_ = []
+                for el in n.elif_:
+                    el2 = copy.copy(el)
+                    el2.body = _inline_macros(el.body, resolve, depth)
+                    n2.elif_.append(el2)
+            out.append(n2)
+        else:
+            out.append(n)
+    return out
+
+
 def _python_of(frs: list) -> ast.Module | None:
     """the Python module a template consists of, every output expression replaced by a name"""
     try:
         return ast.parse("".join(f.text if f.kind == "data" else "__expr__" for f in frs))
     except SyntaxError:
         return None
+
+
+def _generated_module(jx: Any, template: str) -> "ast.Module | None":
+    """the Python module a template writes (skeleton: macros inlined with the arguments of their call sites, holes as placeholders)"""
+    from ..skeleton import SkelWalker, to_lines
+    from ..skelscan import HOLE, OPQ
+
+    text = "\n".join(to_lines(SkelWalker(jx, frozenset()).walk_template(template))[0])
+    text = re.sub(HOLE + r"(\d+)" + HOLE, r"H_\1", text)
+    text = re.sub(OPQ + r"(\d+)" + OPQ, r"O_\1", text)
+    try:
+        return ast.parse(text)
+    except (SyntaxError, ValueError):
+        return None
+
+
+def _call_signature(c: ast.Call, lc: Locals) -> "dict[str, str]":
+    """what a call passes, by parameter: keyword -> value text (a local reads as its single definition), positional arguments by index,
+    `**d` expanded when d is a dict literal / dict(...) (directly or through a local), else kept as `**<text>`"""
+    out = {f"#{i}": norm(_follow(a, lc)) for i, a in enumerate(c.args)}
+    for k in c.keywords:
+        v = _follow(k.value, lc)
+        if k.arg is not None:
+            out[k.arg] = norm(v)
+        elif isinstance(v, ast.Dict) and all(isinstance(x, ast.Constant) and isinstance(x.value, str) for x in v.keys):
+            out.update({x.value: norm(_follow(y, lc)) for x, y in zip(v.keys, v.values)})
+        elif isinstance(v, ast.Call) and call_name(v) == "dict" and not v.args and all(x.arg is not None for x in v.keywords):
+            out.update({x.arg: norm(_follow(x.value, lc)) for x in v.keywords})
+        else:
+            out[f"**{norm(v)}"] = ""
+    return out
+
+
+class _UnderRule:
+    """a Report seen through another rule id: lets a rule that another property already states (and keeps hardening) be claimed here under
+    this property's own id, with the same construct keys, instead of a second implementation that would drift"""
+
+    def __init__(self, rep: Report, rule: str) -> None:
+        self._rep, self._rule = rep, rule
+
+    def __getattr__(self, name: str) -> Any:
+        return getattr(self._rep, name)
+
+    def check(self, cond: bool, rule: str, construct: str, *a: Any, **k: Any) -> bool:
+        return self._rep.check(cond, self._rule, construct, *a, **k)
+
+    def fail(self, rule: str, construct: str, *a: Any, **k: Any) -> None:
+        self._rep.fail(self._rule, construct, *a, **k)
+
+    def ok(self, rule: str, construct: str, *a: Any, **k: Any) -> None:
+        self._rep.ok(self._rule, construct, *a, **k)
 
 
 # error handlers of bytes.decode that never raise
@@ -657,18 +751,21 @@ def run(rep: Report, ctx: Any) -> str:
     it, ji = ctx.flow
     et = jx.templates.get("endpoint_module.py.jinja")
     rep.require(et, "endpoint_module.py.jinja")
-    rep.rule("R04.1", "status dispatch is total over parsed responses: one `if response.status_code == ...` per element of "
+    rep.rule("R04.1", "status dispatch is total over parsed responses: under every assignment of the conditions (inside or around the "
+                      "loops over endpoint.responses) exactly one `if response.status_code == ...` per element of "
                       "endpoint.responses; under every assignment of the guards a status branch emits a return, and whenever the plain "
                       "variants (`def sync(`) are generated it is the decoded value, never None; the tail (raise UnexpectedStatus if "
                       "client.raise_on_unexpected_status else return None) is emitted unconditionally")
     rep.rule("R04.2", "media type -> source, decided on the result of get_content_type (overrides applied) whatever the document's key is "
                       "(truth table over the ==/startswith/endswith/is-None atoms of the classifier's literals, paths followed): text/* -> response.text:str, "
                       "application/json and +json -> response.json(), application/octet-stream -> response.content:bytes; no content / no "
-                      "schema -> None: every path to property_from_data passes a test sending missing/empty content, and one sending a "
-                      "None schema, to `return empty_response(...)`")
+                      "schema -> None: when `.content` is None or empty, or `.media_type_schema` is None, every feasible path of "
+                      "response_from_data (helpers included) that has read it returns empty_response(...) and does not reach property_from_data")
     rep.rule("R04.3", "construct-or-cast: the kind's construct when it exists, else direct assignment when the types agree, else cast")
     rep.rule("R04.4", "_build_response forwards status_code, content, headers, parsed; sync = sync_detailed(...).parsed")
-    rep.rule("R04.5", "status parsing is contained: HTTPStatus(int(code)) sits in a try catching ValueError whose handler records a diagnostic")
+    rep.rule("R04.5", "status parsing is contained: when HTTPStatus(int(code)) raises ValueError no path lets it out of _add_responses, and "
+                      "every path ends the iteration of the responses loop with a diagnostic appended to the endpoint's errors and nothing "
+                      "appended to its responses")
     rep.rule("R04.6", "a union member's failing type check raises outside try/except only if it is the last member and no unmodified "
                       "member can still accept the value")
     rep.rule("R04.8", "raising the dedicated error cannot fail itself: every conversion UnexpectedStatus applies to the raw body of an "
@@ -677,20 +774,29 @@ def run(rep: Report, ctx: Any) -> str:
                       "for an inline response (shared with C20)")
 
     # ---- R04.1 -----------------------------------------------------------------------------------------------------
-    top = list(tplq.frags(et.tree.body))
-    # (the variable of `for x in endpoint.responses` is canonical: endpoint.responses[*]; a `set` variable reads as its definition)
-    st = [f for f in top if f.kind == "expr" and f.text == "endpoint.responses[*].status_code.value"]
-    rep.check(len(st) == 1 and st[0].loops == ("endpoint.responses",) and not st[0].guards, "R04.1", "endpoint_module.py.jinja::one-test-per-response",
-              "the status test is not emitted once per parsed response", where=f"{PKG}/templates/{et.name}", lhs=[(f.loops, f.guards) for f in st],
-              rhs="inside `for response in endpoint.responses`, unguarded")
-    rets = [f for f in top if f.kind == "data" and f.loops == ("endpoint.responses",) and re.search(r"^\s*return\b", f.text, re.M)]
+    # macros of the template itself and macros it imports by name are read in place (expanded) wherever their result is emitted
+    imported: dict[str, tuple[str, str]] = {}
+    for imp in et.tree.find_all(nodes.FromImport):
+        if isinstance(imp.template, nodes.Const) and isinstance(imp.template.value, str):
+            for nm in imp.names:
+                src, alias = nm if isinstance(nm, tuple) else (nm, nm)
+                imported[alias] = (imp.template.value, src)
+
+    def macro_named(name: str) -> "nodes.Macro | None":
+        if name in et.macros:
+            return et.macros[name]
+        t2 = jx.templates.get(imported[name][0]) if name in imported else None
+        return t2.macros.get(imported[name][1]) if t2 is not None else None
+
+    et_body = _inline_macros(et.tree.body, macro_named)
+    top = list(tplq.frags(et_body))
     # The plain variants (`def sync(`) exist exactly when the operation has a typed result; that condition - however it is spelled,
     # named or inlined - is what may decide between "return the decoded value" and "return None" in a status branch.
     plain = next((f for f in top if f.kind == "data" and not f.loops and re.search(r"^def sync\(", f.text, re.M)), None)
     # a top-level `set` variable with a single definition is a name for its definition: guards are compared with it unfolded, so naming
     # the condition in one place and writing it out in another is the same decision
     defs: dict[str, list[nodes.Node]] = {}
-    for x in _tpl_stmts(et.tree.body, (nodes.Assign,)):
+    for x in _tpl_stmts(et_body, (nodes.Assign,)):
         if isinstance(x.node.target, nodes.Name):
             defs.setdefault(x.node.target.name, []).append(x.node.node)
 
@@ -706,24 +812,52 @@ def run(rep: Report, ctx: Any) -> str:
     def unfolded(f: tplq.Frag) -> tplq.Frag:
         return dataclasses.replace(f, guard_nodes=tuple(unfold(g) for g in f.guard_nodes))
 
-    rets = [unfolded(f) for f in rets]
+    # The dispatch is read per loop over the parsed responses (the loop variable is canonical: endpoint.responses[*]), each fragment under
+    # its full stack of conditions - those around the loop included.  A condition that does not depend on the response may stand inside the
+    # loop or around it (one loop with a branch per kind of operation, or one loop per kind): what is decided is, for every assignment of
+    # the conditions' atoms, how many status tests one response gets (exactly one) and what the loop that emits it returns.
+    RESPONSES = "endpoint.responses"
+    STATUS = f"{RESPONSES}[*].status_code.value"
+    dispatch: list[tuple[list[tplq.Frag], list[tplq.Frag], list[tplq.Frag]]] = []   # per loop: status tests, returns, misplaced status tests
+    for lp in _tpl_stmts(et_body, (nodes.For,)):
+        if lp.loops or expr_text(lp.node.iter) != RESPONSES:
+            continue
+        g, gn = lp.guards, lp.guard_nodes
+        if lp.node.test is not None:      # a loop filter guards the whole body
+            g, gn = g + ((expr_text(lp.node.test), True),), gn + (lp.node.test,)
+        body = [unfolded(f) for f in tplq.frags(lp.node.body, g, gn, (RESPONSES,))]
+        tests = [f for f in body if f.kind == "expr" and f.text == STATUS]
+        if tests:
+            dispatch.append(([f for f in tests if f.loops == (RESPONSES,)],
+                             [f for f in body if f.kind == "data" and f.loops == (RESPONSES,) and re.search(r"^\s*return\b", f.text, re.M)],
+                             [f for f in tests if f.loops != (RESPONSES,)]))
+    rets = [f for _, rs, _ in dispatch for f in rs]
     none_rets = [f for f in rets if re.search(r"^\s*return None\s*$", f.text, re.M)]
     none_ids = {id(f) for f in none_rets}
     val_rets = [f for f in rets if id(f) not in none_ids]
     plain = unfolded(plain) if plain is not None else None
     names: list[str] = []
-    for f in rets + ([plain] if plain is not None else []):
+    for f in [f for ts, _, _ in dispatch for f in ts] + rets + ([plain] if plain is not None else []):
         names += [a for a in tplq.guard_atoms(f) if a not in names]
     rep.require(len(names) <= 12, "guards of the status branches' returns are small enough for a truth table")
-    silent_env = None      # an assignment of the guard atoms under which a status branch emits no return at all
+    miscounted_env = None  # an assignment of the guard atoms under which a response gets no status test, or more than one
+    silent_env = None      # ... under which a status branch emits no return at all
     lost_env = None        # ... under which the operation has a typed result, yet a status branch returns None / no decoded value
     for env in tplq.assignments(names):
-        emitted = [f for f in rets if tplq.guard_holds(f, env)]
+        live = [(ts, rs) for ts, rs, _ in dispatch if any(tplq.guard_holds(f, env) for f in ts)]
+        if sum(1 for ts, _ in live for f in ts if tplq.guard_holds(f, env)) != 1:
+            miscounted_env = env if miscounted_env is None else miscounted_env
+            continue
+        emitted = [f for f in live[0][1] if tplq.guard_holds(f, env)]
         if not emitted and silent_env is None:
             silent_env = env
         if plain is not None and tplq.guard_holds(plain, env) and lost_env is None and \
                 (any(id(f) in none_ids for f in emitted) or all(id(f) in none_ids for f in emitted)):
             lost_env = env
+    rep.check(bool(dispatch) and miscounted_env is None and not any(m for _, _, m in dispatch), "R04.1", "endpoint_module.py.jinja::one-test-per-response",
+              "the status test is not emitted once per parsed response" + (f" (e.g. when {miscounted_env})" if miscounted_env else ""),
+              where=f"{PKG}/templates/{et.name}", lhs=[[f.guards for f in ts] for ts, _, _ in dispatch],
+              rhs="under every assignment of the conditions exactly one status test per element of endpoint.responses")
     rep.check(bool(val_rets) and silent_env is None, "R04.1", "endpoint_module.py.jinja::every-branch-returns",
               "a status branch can fall through without returning", where=f"{PKG}/templates/{et.name}", lhs=[len(val_rets), len(none_rets), silent_env],
               rhs="a return is emitted in every status branch under every assignment of its guards")
@@ -886,39 +1020,129 @@ def run(rep: Report, ctx: Any) -> str:
     rep.require(built, "Response(...) construction in empty_response")
     rep.check(all(b == "NONE_SOURCE" for b in built), "R04.2", "empty_response::none-source", "an empty response is not decoded to None", where(er, er.node),
               lhs=built, rhs="source=NONE_SOURCE")
-    # no content / no schema: the schema that gets decoded is whatever is handed to property_from_data(data=...).  Every path to that call
-    # must pass (a) a test that sends "the response's content is missing / empty" and (b) a test that sends "that schema is None" to a
-    # branch returning empty_response(...).  Guards are evaluated, not compared: early return or nested if, either polarity.
-    site_f = None
-    for g in region(ix, rfd):
-        if any(call_name(c).rsplit(".", 1)[-1] == "property_from_data" for c in calls_in(g.node)):
-            site_f = g
-            break
-    rep.require(site_f, "property_from_data(...) call in response_from_data or its helpers")
-    gl = Locals(site_f.node)
-    g_cfg = CFG(site_f.node)
-    content_l = set(gl.bound_from(lambda v: v.endswith(".content"), "assign"))
-    content_l |= {norm(x) for x in ast.walk(site_f.node) if isinstance(x, ast.Attribute) and x.attr == "content"}
-    for c in [c for c in calls_in(site_f.node) if call_name(c).rsplit(".", 1)[-1] == "property_from_data"]:
-        site = stmt_of(site_f.node, c)
-        schema_e = next((k.value for k in c.keywords if k.arg == "data"), None)
-        rep.require(site is not None and schema_e is not None, "data= argument of property_from_data in the response parser")
-        no_schema = _empty_guard(site_f.node, g_cfg, site, [_absent({norm(schema_e)}, True)])
-        no_content = _empty_guard(site_f.node, g_cfg, site, [_absent(content_l, True), _absent(content_l, False)])
-        if no_content is None and site_f is not rfd:
-            # the decoding was moved into a helper: the content test may have stayed with the caller, in front of the helper's call
-            r_cfg = CFG(rfd.node)
-            rl = Locals(rfd.node)
-            r_content = set(rl.bound_from(lambda v: v.endswith(".content"), "assign")) | \
-                {norm(x) for x in ast.walk(rfd.node) if isinstance(x, ast.Attribute) and x.attr == "content"}
-            for c2 in [c2 for c2 in calls_in(rfd.node) if call_name(c2).rsplit(".", 1)[-1] == site_f.name]:
-                st2 = stmt_of(rfd.node, c2)
-                no_content = no_content or (_empty_guard(rfd.node, r_cfg, st2, [_absent(r_content, True), _absent(r_content, False)]) if st2 is not None else None)
-        rep.check(no_content is not None and no_schema is not None, "R04.2", "response_from_data::no-content-and-no-schema",
-                  "no content / no schema are not both mapped to the empty response", where(site_f, site),
-                  lhs=[norm(i.test) if i is not None else None for i in (no_content, no_schema)],
-                  rhs=f"every path to property_from_data(data={norm(schema_e)}) passes `<.content> is missing/empty` and `{norm(schema_e)} is None` tests "
-                      "whose positive outcome returns empty_response(...)")
+    # no content / no schema, stated on paths (scenario walker), not on the shape of a test: in the scenario "every read of the response's
+    # `.content` yields nothing" (None, and an empty mapping) and in the scenario "the schema of the chosen media type
+    # (`.media_type_schema`) is None", every path of response_from_data - private helpers walked with their arguments - that has read
+    # that attribute ends by returning a non-error value built by empty_response(...), and property_from_data is not reached on it.  An
+    # early return, the rest nested under the negated test, a schema local left at its None default that a later test picks up, the test
+    # moved into a helper: all the same paths.
+    r_helpers = private_callees(ix, rfd)
+    rep.require(any(call_name(c).rsplit(".", 1)[-1] == "property_from_data" for g in [rfd, *r_helpers] for c in calls_in(g.node)),
+                "property_from_data(...) call in response_from_data or its helpers")
+
+    def reads(e: ast.AST, attr: str) -> bool:
+        return isinstance(e, ast.Attribute) and e.attr == attr and isinstance(e.ctx, ast.Load)
+
+    def r_event(e: ast.AST, st_: Any, w: Any) -> "str | None":
+        if reads(e, "content"):
+            return "content-read"
+        if reads(e, "media_type_schema"):
+            return "schema-read"
+        if isinstance(e, ast.Call):
+            last = call_name(e).rsplit(".", 1)[-1]
+            return "decoded" if last == "property_from_data" else "empty" if last == "empty_response" else None
+        return None
+
+    scenarios = [("the response has no content (None)", "content", "content-read", V(truthy=False, none=True, err=False)),
+                 ("the response's content is empty", "content", "content-read", V(truthy=False, none=False, err=False)),
+                 ("the media type has no schema", "media_type_schema", "schema-read", NONE)]
+    not_empty: list[str] = []
+    n_paths = 0
+    for desc, attr, marker, val in scenarios:
+        try:
+            outs = Walker(rfd, axiom=lambda e, st_, w, attr=attr, val=val: val if reads(e, attr) else None, event=r_event, inline=r_helpers).run()
+        except TooComplex as e:
+            rep.require(False, f"paths of response_from_data few enough to follow ({e})")
+        rel = [o for o in outs if marker in o.flags and o.final]
+        rep.require(rel, f"path of response_from_data that reads `.{attr}`")
+        n_paths += len(rel)
+        for o in rel:
+            if not (o.kind in ("return", "end") and not o.value.is_error() and "empty" in o.flags and "decoded" not in o.flags):
+                what = ("reaches property_from_data" if "decoded" in o.flags else "returns an error" if o.value.is_error() else
+                        f"raises {o.exc}" if o.kind in ("raise", "uncaught") else "returns something not built by empty_response")
+                msg = f"when {desc}: a path {what} (ends at line {getattr(o.node, 'lineno', '?')})"
+                if msg not in not_empty:
+                    not_empty.append(msg)
+    rep.check(not not_empty, "R04.2", "response_from_data::no-content-and-no-schema",
+              "no content / no schema are not both mapped to the empty response: " + "; ".join(not_empty[:3]), where(rfd, rfd.node),
+              lhs=not_empty[:6], rhs="every path that has read a missing / empty `.content`, or a None `.media_type_schema`, returns "
+                                     "empty_response(...) without calling property_from_data")
+    rep.floor("empty_response_paths", n_paths, 3)      # counted by role: path ends per scenario, at least one each
+
+    # ---- R04.10: the source and the schema of a response belong to one media type ------------------------------------------------
+    # A response offered in several representations is decoded from ONE of them: the source (classifier applied to the media type key)
+    # and the schema (`.media_type_schema` of the media type object) must come from the same (key, object) pair of the content mapping.
+    # Stated as an inductive invariant of every loop that classifies its own key and reads its own object's schema (in the response
+    # parser or a private helper): on every path through one iteration - followed from a state in which everything the loop rebinds is
+    # unknown - that ends the iteration, leaves the loop or returns, the variables that outlive the loop (and a returned value) hold a
+    # source of THIS iteration if and only if they hold the schema of THIS iteration.  A source that is None is no source.  Both values
+    # are followed by provenance tags through copies, tuples and tests, not by name.  A comprehension whose element is built from both is
+    # paired by construction.
+    rep.rule("R04.10", "the media type whose key is classified is the media type whose schema is decoded: on every path through one "
+                       "iteration of a loop over the content's (key, media type) pairs, what outlives the iteration holds this "
+                       "iteration's source iff it holds this iteration's schema")
+    selections = 0
+    unpaired: list[str] = []
+    for g in [rfd, *r_helpers]:
+        lc_g = Locals(g.node)
+
+        def of_target(e: ast.AST, targets: set[str], lc_g: Locals = lc_g) -> bool:
+            names = {n.id for n in ast.walk(e) if isinstance(n, ast.Name)}
+            for n in list(names):
+                if n not in targets and len(lc_g.values_of(n)) == 1:     # one level through a local: `key = content_type.lower()`
+                    names |= {x.id for x in ast.walk(lc_g.values_of(n)[0]) if isinstance(x, ast.Name)}
+            return bool(names & targets)
+
+        def classified(c: ast.AST, targets: set[str]) -> bool:
+            return isinstance(c, ast.Call) and call_name(c).rsplit(".", 1)[-1] == sb.name and \
+                any(of_target(a, targets) for a in [*c.args, *[k.value for k in c.keywords]])
+
+        def schema_of(a: ast.AST, targets: set[str]) -> bool:
+            return reads(a, "media_type_schema") and of_target(a.value, targets)
+
+        for comp in [n for n in ast.walk(g.node) if isinstance(n, (ast.ListComp, ast.SetComp, ast.GeneratorExp, ast.DictComp))]:
+            targets = {n.id for gen in comp.generators for n in ast.walk(gen.target) if isinstance(n, ast.Name)}
+            elt_parts = [comp.key, comp.value] if isinstance(comp, ast.DictComp) else [comp.elt]
+            has_src = any(classified(x, targets) for part in [*elt_parts, *[i for gen in comp.generators for i in gen.ifs]] for x in ast.walk(part))
+            has_sch = any(schema_of(x, targets) for part in elt_parts for x in ast.walk(part))
+            if has_src and has_sch:
+                selections += 1
+        for lp in [n for n in ast.walk(g.node) if isinstance(n, (ast.For, ast.AsyncFor))]:
+            targets = {n.id for n in ast.walk(lp.target) if isinstance(n, ast.Name)}
+            body_ids = {id(x) for part in lp.body for x in ast.walk(part)}
+            src_ids = {id(x) for part in lp.body for x in ast.walk(part) if classified(x, targets)}
+            sch_ids = {id(x) for part in lp.body for x in ast.walk(part) if schema_of(x, targets)}
+            if not (src_ids and sch_ids):
+                continue
+            selections += 1
+            live = {n.id for n in ast.walk(g.node) if isinstance(n, ast.Name) and isinstance(n.ctx, ast.Load) and id(n) not in body_ids}
+            try:
+                outs = Walker(g, axiom=lambda e, st_, w, src_ids=src_ids, sch_ids=sch_ids:
+                              V(tag="source") if id(e) in src_ids else V(tag="schema") if id(e) in sch_ids else None,
+                              inline=[h for h in private_callees(ix, g) if h.name != sb.name]).run()
+            except TooComplex as e:
+                rep.require(False, f"paths of {short(g)} few enough to follow ({e})")
+            for o in outs:
+                if o.kind in ("iter-end", "break") and o.node is lp:
+                    held: set[str] = set()
+                    for nm in live:
+                        if nm in o.st.env:
+                            held |= o.st.env[nm].tags()
+                    how = "ends an iteration" if o.kind == "iter-end" else "leaves the loop"
+                elif o.kind == "return" and id(o.node) in body_ids:
+                    held, how = o.value.tags(), "returns from the loop"
+                else:
+                    continue
+                if ("source" in held) != ("schema" in held):
+                    msg = f"{short(g)}: a path {how} with this media type's {'source' if 'source' in held else 'schema'} but not its " \
+                          f"{'schema' if 'source' in held else 'source'} (line {getattr(o.node, 'lineno', '?')})"
+                    if msg not in unpaired:
+                        unpaired.append(msg)
+    rep.check(not unpaired, "R04.10", "response_from_data::source-and-schema-from-one-media-type",
+              "the source and the schema of a response can come from different media types of its content: the body is read one way and "
+              "decoded as the other representation's type; " + "; ".join(unpaired[:2]), where(rfd, rfd.node), lhs=unpaired[:4],
+              rhs="what outlives an iteration holds the iteration's source iff it holds the iteration's schema")
+    rep.floor("media_type_selections", selections, 1)
 
     # ---- R04.3 ----------------------------------------------------------------------------------------------------------
     R = "endpoint.responses[*]"
@@ -947,16 +1171,42 @@ def run(rep: Report, ctx: Any) -> str:
               where=f"{PKG}/templates/{et.name}")
 
     # ---- R04.5 --------------------------------------------------------------------------------------------------------------
+    # Stated on paths: in the scenario "HTTPStatus(...) raises ValueError" (wherever the conversion sits: in _add_responses or in a
+    # private helper it calls, walked with its arguments) no path lets the exception out of _add_responses, and every path ends the
+    # iteration of the responses loop having appended to `<endpoint>.errors` and not to `<endpoint>.responses`.  Whether the handler
+    # itself records and `continue`s, or returns a marker (None) that the loop tests afterwards, is the same path.
     ar = ix.func("Endpoint._add_responses")
-    hs = [n for n in ast.walk(ar.node) if isinstance(n, ast.Call) and call_name(n) == "HTTPStatus"]
-    rep.require(hs, "HTTPStatus(...) in _add_responses")
-    for n in hs:
-        rep.check(caught("ValueError", handlers_around(ar.node, n)), "R04.5", "_add_responses::status-parse-contained",
-                  "an invalid status code key raises out of the parser", where(ar, n))
-    tr = next((n for n in ast.walk(ar.node) if isinstance(n, ast.Try)), None)
-    rep.check(tr is not None and any("endpoint.errors.append" in norm(s) for h in tr.handlers for s in h.body) and
-              any(isinstance(s, ast.Continue) for h in tr.handlers for s in h.body), "R04.5", "_add_responses::bad-status-recorded",
-              "a bad status code is not recorded as a diagnostic for the endpoint", where(ar, ar.node))
+    a_helpers = private_callees(ix, ar)
+
+    def is_status_parse(e: ast.AST) -> bool:
+        return isinstance(e, ast.Call) and call_name(e).rsplit(".", 1)[-1] == "HTTPStatus"
+
+    hs = [(g, n) for g in [ar, *a_helpers] for n in ast.walk(g.node) if is_status_parse(n)]
+    rep.require(hs, "HTTPStatus(...) in _add_responses or the private helpers it calls")
+
+    def a_event(e: ast.AST, st_: Any, w: Any) -> "str | None":
+        if isinstance(e, ast.Call) and isinstance(e.func, ast.Attribute) and e.func.attr in ("append", "extend", "insert"):
+            recv = norm(e.func.value).rsplit(".", 1)[-1]
+            return "recorded" if recv == "errors" else "used" if recv == "responses" else None
+        return None
+
+    try:
+        outs = Walker(ar, raises=lambda e: "ValueError" if is_status_parse(e) else None, event=a_event, inline=a_helpers,
+                      per_iteration=("raised", "recorded", "used")).run()
+    except TooComplex as e:
+        rep.require(False, f"paths of _add_responses few enough to follow ({e})")
+    bad_status = [o for o in outs if "raised" in o.flags]
+    rep.require(bad_status, "path of _add_responses on which the status code key is not a valid HTTP status")
+    escaped = [o for o in bad_status if o.kind == "uncaught"]
+    rep.check(not escaped, "R04.5", "_add_responses::status-parse-contained", "an invalid status code key raises out of the parser",
+              where(*hs[0]), lhs=[f"{o.exc} at line {getattr(o.node, 'lineno', '?')}" for o in escaped], rhs="caught on every path")
+    handled = [o for o in bad_status if o.kind != "uncaught"]
+    unrecorded = [o for o in handled if not (o.kind == "iter-end" and "recorded" in o.flags and "used" not in o.flags)]
+    rep.check(bool(handled) and not unrecorded, "R04.5", "_add_responses::bad-status-recorded",
+              "a bad status code is not recorded as a diagnostic for the endpoint (or the response is used all the same, or the remaining "
+              "responses are dropped)", where(ar, ar.node),
+              lhs=[(o.kind, getattr(o.node, "lineno", "?"), sorted(o.flags - {"raised"})) for o in unrecorded],
+              rhs="the iteration ends with an append to <endpoint>.errors and none to <endpoint>.responses")
 
     # ---- R04.6 ----------------------------------------------------------------------------------------------------------------
     ut = jx.templates.get("property_templates/union_property.py.jinja")
@@ -1021,5 +1271,48 @@ def run(rep: Report, ctx: Any) -> str:
     rep.check(not leak, "R04.7", "response_from_data::reference-branch-rebinds-only-data",
               f"resolving a $ref'd component response also changes {leak}: later operations referencing the same component lose the response",
               where(rfd, branch), lhs=sorted(assigned), rhs="{data}")
+    # ---- R04.11: the asyncio variants talk through a transport configured like the blocking one ------------------------------------
+    # "blocking and asyncio variants agree" needs more than the parity of the endpoint functions: both get the status they decode from
+    # an httpx client the generated Client class builds, and every option that shapes the exchange (base URL, cookies, headers, timeout,
+    # TLS verification, redirects, the user's httpx_args) reaches httpx.AsyncClient(...) exactly as it reaches httpx.Client(...).  Read on
+    # the classes as client.py.jinja writes them (macros inlined): per class, the constructions of the two are compared parameter by
+    # parameter - keyword order, a shared dict of arguments or a local in between make no difference.
+    rep.rule("R04.11", "in every class client.py.jinja writes, httpx.AsyncClient(...) is constructed with exactly the arguments (names and "
+                       "values, ** expansions included) httpx.Client(...) is constructed with")
+    rep.require("client.py.jinja" in jx.templates, "client.py.jinja")
+    cmod = _generated_module(jx, "client.py.jinja")
+    rep.require(cmod is not None, "the module client.py.jinja writes, as Python")
+    n_transports = 0
+    for kls in [n for n in cmod.body if isinstance(n, ast.ClassDef)]:
+        built: dict[str, list[dict[str, str]]] = {}
+        for m in [x for x in ast.walk(kls) if isinstance(x, (ast.FunctionDef, ast.AsyncFunctionDef))]:
+            lc_m = Locals(m)
+            for c in calls_in(m):
+                if call_name(c) in ("httpx.Client", "httpx.AsyncClient"):
+                    sig = _call_signature(c, lc_m)
+                    if sig not in built.setdefault(call_name(c), []):
+                        built[call_name(c)].append(sig)
+        if not built:
+            continue
+        n_transports += 1
+        blocking, asyncio_ = built.get("httpx.Client", []), built.get("httpx.AsyncClient", [])
+        same = bool(blocking) and bool(asyncio_) and all(x in asyncio_ for x in blocking) and all(x in blocking for x in asyncio_)
+        diff = sorted({k for x in blocking for y in asyncio_ for k in set(x) | set(y) if x.get(k) != y.get(k)})
+        rep.check(same, "R04.11", f"client.py.jinja::{kls.name}::async-transport-built-like-blocking",
+                  f"{kls.name} configures its httpx.AsyncClient differently from its httpx.Client ({', '.join(diff) or 'one of them is never built'}): "
+                  "the asyncio variants can see another status / response than the blocking ones for the same call",
+                  where=f"{PKG}/templates/client.py.jinja", lhs=asyncio_, rhs=blocking)
+    rep.floor("client_classes_with_transports", n_transports, 1)
+
+    # ---- R04.9: the module of an operation is rendered from that operation (shared with C16) ---------------------------------------
+    # Everything above is about what the endpoint template writes for the endpoint it is given; the statuses an operation documents are
+    # decoded by its module only if the text written to the operation's path is, on every path of the builder, the template rendered
+    # with that very endpoint (not a text cached under a coarser key, not another collection's rendering).  C16 states exactly this
+    # for generate_all_tags (symbolic execution of the Project methods that write text files); it is claimed here under C04's id.
+    from .c16 import _r164_builder
+
+    rep.rule("R04.9", "the builder writes, to the path computed from an element of <collection>.endpoints, on every path the endpoint "
+                      "template rendered with that very element (shared with C16's R16.4 builder clause)")
+    _r164_builder(_UnderRule(rep, "R04.9"), ix)
     rep.not_decided += ["what httpx returns; decoding of values (C02)"]
     return LEVEL
